@@ -16,9 +16,10 @@ ASSUMPTIONS = [
     "implementation by the oracle only (the clipping to the used area is openpyxl/excelwrapper code that "
     "is not modelled)",
     "CSE array formulas, tables / structured references, formulas returning a reference (OFFSET, INDIRECT) and "
-    "the reference cell of an unbounded range and range operations (intersection, computed corners) are outside "
-    "the machine: the streams cse-order, table-order, reference-order, cse-range, range-ops and "
-    "unbounded-history are judged on the implementation alone, the reference "
+    "the reference cell of an unbounded range, range operations (intersection, computed corners), sheet names that "
+    "need quotes and merged areas are outside "
+    "the machine: the streams cse-order (incl. quoted sheets), table-order, reference-order, cse-range, range-ops, "
+    "unbounded-history and merged-order are judged on the implementation alone, the reference "
     "being the value of the cell evaluated alone by a fresh compiler (from-scratch compile after writes)",
 ]
 
@@ -158,7 +159,7 @@ def run(ctx):
     _stream_dag(ctx)
     # oracle-only streams (implementation alone; the reference is the cell evaluated alone in a fresh compiler)
     for stream in (_stream_cse, _stream_tables, _stream_reference, _stream_cse_overlap, _stream_range_ops,
-                   _stream_unbounded_history):
+                   _stream_unbounded_history, _stream_cse_sheets, _stream_merged):
         try:
             stream(ctx)
         except Exception:      # noqa: BLE001
@@ -184,7 +185,14 @@ def run(ctx):
         "is a violation), the value stored for a single cell is not an array, SUM(range) = sum of the cells, a "
         "failing order is shrunk to the targets needed; unbounded-history - SUM/COUNT/MIN/MAX of A:A, "
         "A:B, r:r, 1:n with set_value on members, every first-evaluation order of the formulas, each value "
-        "compared with a from-scratch compile")
+        "compared with a from-scratch compile; cse-order / cse-range on quoted sheets - the same CSE workbooks on a "
+        "sheet whose name must be written in quotes (with spaces / apostrophes: My Data, it's here, 2024 Q1; reading "
+        "as an address, number or boolean: A1, 2024, TRUE; with an operator character: x-y, it's, Tab(1)), a second "
+        "sheet holding dependants of the array members (='My Data'!D2, SUM / INDEX / COUNT('My Data'!D:D)), members "
+        "also read through an address list / tuple / generator and the sheet-less form; merged-order - a block "
+        "A1:D4 with one or two merged areas (1x2 .. 3x2), formulas reading the covered cells directly, through "
+        "bounded and unbounded ranges: every covered cell, formula, merged area, block row / column, r:r, c:c, "
+        "sheet-less address and address sequence evaluated first, plus random permutations (a raise is reported)")
 
 
 # ============================================================================================
@@ -200,20 +208,34 @@ def _col(c):
     return get_column_letter(c)
 
 
+_CELL_LIKE = {'A1', 'R1C1', 'RC', 'TRUE', 'FALSE', 'XFD1048576', 'A1B2'}
+
+
+def _q(sheet):
+    """the sheet name as it is written in an address: quoted (apostrophes doubled) when it is not a plain
+    identifier, or when it reads as a cell address / a boolean (the names of the quoted-sheet streams; the
+    titles S, S1.. of the older streams stay bare)"""
+    import re
+    if re.fullmatch(r'[A-Za-z_][A-Za-z0-9_]*', sheet) and sheet not in _CELL_LIKE:
+        return sheet
+    return "'" + sheet.replace("'", "''") + "'"
+
+
 def _a(sheet, r, c):
-    return f'{sheet}!{_col(c)}{r}'
+    return f'{_q(sheet)}!{_col(c)}{r}'
 
 
 def _ra(sheet, r1, c1, r2, c2):
-    return f'{sheet}!{_col(c1)}{r1}:{_col(c2)}{r2}'
+    return f'{_q(sheet)}!{_col(c1)}{r1}:{_col(c2)}{r2}'
 
 
 class Grid:
     def __init__(self):
         self.sheets = []
+        self.extra = {}         # added to every reported case (e.g. sheet=<title> for the quoted-sheet streams)
 
     def sheet(self, title):
-        sh = dict(title=title, cells={}, arrays=[], tables=[])
+        sh = dict(title=title, cells={}, arrays=[], tables=[], merges=[])
         self.sheets.append(sh)
         return sh
 
@@ -236,6 +258,8 @@ class Grid:
                 ws.add_table(Table(displayName=name, ref=f'{_col(c1)}{r1}:{_col(c2)}{r2}',
                                    tableColumns=[TableColumn(id=i, name=h)
                                                  for i, h in enumerate(headers, start=1)]))
+            for (r1, c1, r2, c2) in sh['merges']:
+                ws.merge_cells(start_row=r1, start_column=c1, end_row=r2, end_column=c2)
         return wb
 
     def desc(self, inputs=None):
@@ -248,6 +272,8 @@ class Grid:
                 out.append([_ra(t, r1, c1, r2, c2), '{' + text + '}'])
             for name, rect, headers in sh['tables']:
                 out.append([_ra(t, *rect), f'table {name} {headers}'])
+            for rect in sh['merges']:
+                out.append([_ra(t, *rect), 'merged'])
         return out
 
     def used(self, title):
@@ -281,11 +307,11 @@ def _range_target(sheet, r1, c1, r2, c2, addr=None):
 
 
 def _row_target(grid, sheet, r):
-    return dict(addr=f'{sheet}!{r}:{r}', sheet=sheet, rect=(r, 1, r, grid.used(sheet)[1]), open='row')
+    return dict(addr=f'{_q(sheet)}!{r}:{r}', sheet=sheet, rect=(r, 1, r, grid.used(sheet)[1]), open='row')
 
 
 def _col_target(grid, sheet, c):
-    return dict(addr=f'{sheet}!{_col(c)}:{_col(c)}', sheet=sheet, rect=(1, c, grid.used(sheet)[0], c), open='col')
+    return dict(addr=f'{_q(sheet)}!{_col(c)}:{_col(c)}', sheet=sheet, rect=(1, c, grid.used(sheet)[0], c), open='col')
 
 
 def _rect_values(val, nr, nc):
@@ -363,18 +389,18 @@ def _solo(ctx, ExcelCompiler, stream, grid, cells, inputs=None):
             out[cell] = canon(ExcelCompiler(excel=grid.build(inputs)).evaluate(_a(*cell)))
         except Exception as exc:      # noqa: BLE001
             ctx.violation(dict(call=stream, workbook=grid.desc(inputs), args=[_a(*cell)],
-                               error=type(exc).__name__),
+                               error=type(exc).__name__, **grid.extra),
                           f"evaluate({_a(*cell)}) alone raises {type(exc).__name__}: {exc}"[:200])
             return None
     return out
 
 
-def _judge(ctx, stream, key, grid, order, seen, solo, inputs=None, extra=None):
+def _judge(ctx, stream, key, grid, order, seen, solo, inputs=None, extra=None, kind=None):
     """every observation equals the solo value (cells outside `solo` are blank: None)"""
     bad = sorted(cell for cell, vals in seen.items() if any(v != solo.get(cell) for v in vals))
-    ctx.count((stream,) + key, kind=stream)
+    ctx.count((stream,) + key, kind=kind or stream)
     if bad:
-        case = dict(call=stream, workbook=grid.desc(inputs), order=[t['addr'] for t in order])
+        case = dict(call=stream, workbook=grid.desc(inputs), order=[t['addr'] for t in order], **grid.extra)
         case.update(extra or {})
         ctx.violation(case, f"value of {[_a(*c) for c in bad]} depends on the first-evaluation order / "
                             f"access path (differs from the value of the cell evaluated alone)",
@@ -399,8 +425,9 @@ def _orders(rng, singles, ranges, nrandom, exhaustive_upto=4):
     return out
 
 
-def _run_orders(ctx, ExcelCompiler, stream, k, grid, singles, ranges, nrandom, extra_check=None):
-    solo = _solo(ctx, ExcelCompiler, stream, grid, grid.cells())
+def _run_orders(ctx, ExcelCompiler, stream, k, grid, singles, ranges, nrandom, extra_check=None, kind=None,
+                cells=None):
+    solo = _solo(ctx, ExcelCompiler, stream, grid, grid.cells() if cells is None else cells)
     if solo is None:
         return None
     for oi, order in enumerate(_orders(ctx.rng, singles, ranges, nrandom)):
@@ -408,10 +435,10 @@ def _run_orders(ctx, ExcelCompiler, stream, k, grid, singles, ranges, nrandom, e
             seen = _observe(ExcelCompiler, grid, order)
         except Exception as exc:      # noqa: BLE001
             ctx.violation(dict(call=stream, workbook=grid.desc(), order=[t['addr'] for t in order],
-                               error=type(exc).__name__),
+                               error=type(exc).__name__, **grid.extra),
                           f"evaluate raises {type(exc).__name__}: {exc}"[:200])
             continue
-        _judge(ctx, stream, (k, oi), grid, order, seen, solo)
+        _judge(ctx, stream, (k, oi), grid, order, seen, solo, kind=kind)
     return solo
 
 
@@ -419,13 +446,13 @@ def _run_orders(ctx, ExcelCompiler, stream, k, grid, singles, ranges, nrandom, e
 CSE_DATA = [0, 1, 2, 3, 5, -4, 10, '#N/A', '#DIV/0!', 'abc']
 
 
-def _gen_cse(rng):
+def _gen_cse(rng, title=wbgen.SHEET):
     """Column B: data (numbers, text, error values).  Column C: ORDINARY cells calling the
     functions that behave differently inside an array formula (IFERROR, IFNA, IFS) on a range.
     Columns D.. : CSE array formulas whose precedents are those ordinary cells.  G1: an
     ordinary cell over the array."""
     g = Grid()
-    s = g.sheet(wbgen.SHEET)
+    s = g.sheet(title)
     n = rng.choice([2, 2, 3])
     for r in range(1, n + 1):
         s['cells'][(r, 2)] = rng.choice(CSE_DATA)
@@ -460,6 +487,16 @@ def _gen_cse(rng):
     return g
 
 
+def _cse_ranges(g, t):
+    maxr, maxc = g.used(t)
+    ranges = [_range_target(t, *a[1:]) for a in g.arrays()]                 # exactly the arrays
+    ranges.append(_range_target(t, 1, 2, maxr, maxc))                        # the whole block, from B1
+    ranges.append(_range_target(t, 1, 3, maxr, 4))                           # C1:Dn: ordinary cells + array
+    ranges.append(_col_target(g, t, 4))                                      # D:D clips to exactly the array
+    ranges.append(_row_target(g, t, 1))                                      # 1:1 starts on the blank A1
+    return ranges
+
+
 def _stream_cse(ctx):
     from pycel import ExcelCompiler
     rng = ctx.rng
@@ -467,13 +504,67 @@ def _stream_cse(ctx):
         g = _gen_cse(rng)
         t = wbgen.SHEET
         singles = [_cell_target(c) for c in g.cells()]
-        maxr, maxc = g.used(t)
-        ranges = [_range_target(t, *a[1:]) for a in g.arrays()]                 # exactly the arrays
-        ranges.append(_range_target(t, 1, 2, maxr, maxc))                        # the whole block, from B1
-        ranges.append(_range_target(t, 1, 3, maxr, 4))                           # C1:Dn: ordinary cells + array
-        ranges.append(_col_target(g, t, 4))                                      # D:D clips to exactly the array
-        ranges.append(_row_target(g, t, 1))                                      # 1:1 starts on the blank A1
-        _run_orders(ctx, ExcelCompiler, 'cse-order', k, g, singles, ranges, ctx.n(8, 24))
+        _run_orders(ctx, ExcelCompiler, 'cse-order', k, g, singles, _cse_ranges(g, t), ctx.n(8, 24))
+
+
+# ------------------------------------------------- T7: CSE arrays on sheets whose names must be written in quotes
+# Sheet names Excel accepts and writes in quotes (from the pools of harness/props/c11.py).  The member cell of a
+# multi-cell array formula is compiled as =index(<sheet>!<array range>,i,j): the sheet name travels through
+# formula TEXT there, so it must be quoted whenever the name needs it.
+SHEETS_SPACED = ['My Data', 'Sheet 1', "it's here", "a ' b", 'A1 B2', '2024 Q1', '数据 表', 'R1C1 x', 'TRUE FALSE',
+                 ' lead', 'trail ', 'a  b']
+SHEETS_CELL_LIKE = ['A1', '2024', 'R1C1', 'TRUE', '1', 'XFD1048576', 'a.b', 'Übersicht']
+SHEETS_OPERATOR = ["it's", 'x-y', "a''b", '#REF', 'a$b', 'a,b', 'Tab(1)']
+_OPERATOR_CHARS = set("'-,$()#&+=<>;^{}%")
+
+
+@known_predicate('C05-cse-sheet-name-unquoted')
+def _cse_unquoted_sheet(case):
+    """a CSE array formula on a sheet whose name has NO space but a character the formula tokenizer reads as an
+    operator / punctuation (it's, x-y, a,b, #REF, Tab(1)): quote_sheet quotes only names with a space"""
+    sheet = case.get('sheet')
+    return case.get('call') in ('cse-order', 'cse-range') and isinstance(sheet, str) and ' ' not in sheet and \
+        any(ch in _OPERATOR_CHARS for ch in sheet)
+
+
+def _sheet_title(rng, k):
+    """spaced names (3 of 5 workbooks), names reading as an address / number / boolean, names with an operator"""
+    return rng.choice([SHEETS_SPACED, SHEETS_SPACED, SHEETS_CELL_LIKE, SHEETS_SPACED, SHEETS_OPERATOR][k % 5])
+
+
+def _stream_cse_sheets(ctx):
+    """cse-order and cse-range on multi-sheet workbooks whose array formulas live on a sheet with a name that needs
+    quotes; a second sheet holds dependants of the array members"""
+    from pycel import ExcelCompiler
+    rng = ctx.rng
+    for k in range(ctx.n(25, 200)):
+        t = _sheet_title(rng, k)
+        g = _gen_cse(rng, t)
+        g.extra = dict(sheet=t)
+        n = max(a[3] for a in g.arrays())
+        t2 = rng.choice(['T', 'Other', 'Sum 2', 'My Data 2'])
+        s2 = g.sheet(t2)
+        q, m = _q(t), rng.randrange(1, n + 1)
+        forms = [f'={q}!D{m}', f'={q}!D{m}&"z"', f'=SUM({q}!D1:D{n})', f'=INDEX({q}!D1:D{n},{m})',
+                 f'=COUNT({q}!D:D)', f'=IFERROR({q}!D{m},{q}!C1)', f'={q}!D{n}&{q}!G1']
+        for r, text in enumerate(rng.sample(forms, rng.choice([1, 2, 2])), start=1):
+            s2['cells'][(r, 1)] = text
+        singles = [_cell_target(c) for c in g.cells()]
+        ranges = _cse_ranges(g, t)
+        ranges.append(_range_target(t2, 1, 1, 2, 1))
+        members = [(t, r, c) for (_, r1, c1, r2, c2) in g.arrays() for r in range(r1, r2 + 1)
+                   for c in range(c1, c2 + 1)]
+        ranges.append(_seq_target(rng.choice(['list', 'tuple', 'generator']),
+                                  rng.sample(members, min(len(members), 3))))
+        ranges.append(dict(addr=f'D{m}', sheet=t, rect=(m, 4, m, 4)))            # sheet-less: the active (first) sheet
+        _run_orders(ctx, ExcelCompiler, 'cse-order', ('sheets', k), g, singles, ranges, ctx.n(6, 20),
+                    kind='cse-order:quoted-sheet')
+    for k in range(ctx.n(16, 120)):
+        t = _sheet_title(rng, k)
+        if k % 2:
+            _cse_overlap_case(ctx, ExcelCompiler, ('sheets', k), t, dict(sheet=t))
+        else:
+            _cse_adjacent_case(ctx, ExcelCompiler, ('sheets', k), t, dict(sheet=t))
 
 
 # ---------------------------------------------------------------------------------- T2: tables
@@ -634,12 +725,12 @@ def _cse_text_match(anchor, other, i, j):
 # if it returns)
 
 
-def _gen_cse_overlap(rng):
+def _gen_cse_overlap(rng, title=wbgen.SHEET):
     """Region A1:E5 with two or three CSE arrays (some adjacent, some with the same or a
     prefix-sharing formula text) and neighbours that are blank, numbers, text or ordinary
     formulas; the arrays read the data block H1:I3."""
     g = Grid()
-    s = g.sheet(wbgen.SHEET)
+    s = g.sheet(title)
     for r in range(1, 4):
         s['cells'][(r, 8)] = rng.choice([1, 2, 3, 5, 7]) * r
         s['cells'][(r, 9)] = rng.choice([10, 20, 30]) * r
@@ -677,14 +768,14 @@ def _gen_cse_overlap(rng):
     return g
 
 
-def _gen_cse_adjacent(rng):
+def _gen_cse_adjacent(rng, title=wbgen.SHEET):
     """Two (sometimes three) CSE array formulas side by side (or one below the other) whose texts
     are IDENTICAL, prefix-equal (the neighbour's text extends the first one's) or different; the
     first block is at least 2 cells across the direction of adjacency, so that a thin range
     (1 x k / k x 1) anchored at its top-left cell and running into the neighbour has no more
     cells than the first block.  Returns (grid, thin ranges, sum cells {cell: rect it sums})."""
     g = Grid()
-    s = g.sheet(wbgen.SHEET)
+    s = g.sheet(title)
     for r in range(1, 4):
         s['cells'][(r, 8)] = rng.choice([1, 2, 3, 5, 7, 16]) * r
         s['cells'][(r, 9)] = rng.choice([10, 20, 30, 17]) * r
@@ -724,7 +815,7 @@ def _gen_cse_adjacent(rng):
     for i, rect in enumerate(rng.sample(span, min(2, len(span)))):
         cell = (6 + i, 8)
         s['cells'][cell] = f'=SUM({_col(rect[1])}{rect[0]}:{_col(rect[3])}{rect[2]})'
-        sums[(wbgen.SHEET,) + cell] = rect
+        sums[(title,) + cell] = rect
     return g, thin, sums
 
 
@@ -738,7 +829,7 @@ def _cse_arrays(g):
 def _cse_range_targets(ctx, ExcelCompiler, g, k, targets, solo, arrays, members, both_orders=False):
     """each target range evaluated before / after its member cells by a fresh compiler: every
     element equals the value of the cell evaluated alone"""
-    t = wbgen.SHEET
+    t = g.sheets[0]['title']
     for ti, target in enumerate(targets):
         r1, c1, r2, c2 = target['rect']
         cells = [_cell_target((t, r, c)) for r in range(r1, r2 + 1) for c in range(c1, c2 + 1)
@@ -746,9 +837,10 @@ def _cse_range_targets(ctx, ExcelCompiler, g, k, targets, solo, arrays, members,
         orders = [[target] + cells, cells + [target]] if both_orders else \
             [([target] + cells) if ti % 2 == 0 else (cells + [target])]
         for oi, order in enumerate(orders):
-            kind = 'cse-range-' + ('inside' if (r1, c1) in members else 'outside')
+            kind = 'cse-range-' + ('inside' if (r1, c1) in members else 'outside') + \
+                (':quoted-sheet' if g.extra else '')
             case = dict(call='cse-range', args=[target['addr']], order=[x['addr'] for x in order],
-                        wrapper='in-memory', workbook=g.desc(), rect=[t, r1, c1, r2, c2], arrays=arrays)
+                        wrapper='in-memory', workbook=g.desc(), rect=[t, r1, c1, r2, c2], arrays=arrays, **g.extra)
             try:
                 seen = _observe(ExcelCompiler, g, order)
             except Exception as exc:      # noqa: BLE001
@@ -764,41 +856,51 @@ def _cse_range_targets(ctx, ExcelCompiler, g, k, targets, solo, arrays, members,
                               impl={_a(*c): seen[c] for c in bad}, expected={_a(*c): solo.get(c) for c in bad})
 
 
+def _cse_overlap_case(ctx, ExcelCompiler, k, title=wbgen.SHEET, extra=None):
+    rng = ctx.rng
+    t = title
+    g = _gen_cse_overlap(rng, t)
+    g.extra = dict(extra or {})
+    arrays, members = _cse_arrays(g)
+    solo = _solo(ctx, ExcelCompiler, 'cse-range', g, g.cells())
+    if solo is None:
+        return
+    maxr, maxc = g.used(t)
+    rects = [(r1, c1, r2, c2) for r1 in range(1, 7) for r2 in range(r1, 7)
+             for c1 in range(1, 7) for c2 in range(c1, 7)
+             if (r2, c2) != (r1, c1) and any(r1 <= r <= r2 and c1 <= c <= c2 for (r, c) in members)]
+    inside = [x for x in rects if (x[0], x[1]) in members]       # top-left cell belongs to an array
+    outside = [x for x in rects if (x[0], x[1]) not in members]
+    nin = ctx.n(16, 60) if not g.extra else ctx.n(6, 30)
+    chosen = rng.sample(inside, min(nin, len(inside))) + rng.sample(outside, min(nin, len(outside)))
+    targets = [_range_target(t, *x) for x in chosen]
+    for (_, r1, c1, r2, c2, _) in arrays:
+        targets.append(_col_target(g, t, c1))
+        targets.append(_row_target(g, t, r1))
+    _cse_range_targets(ctx, ExcelCompiler, g, k, targets, solo, arrays, members)
+
+
+def _cse_adjacent_case(ctx, ExcelCompiler, k, title=wbgen.SHEET, extra=None):
+    g, thin, sums = _gen_cse_adjacent(ctx.rng, title)
+    g.extra = dict(extra or {})
+    arrays, members = _cse_arrays(g)
+    solo = _solo(ctx, ExcelCompiler, 'cse-range', g, g.cells())
+    if solo is None:
+        return
+    targets = [_range_target(title, *x) for x in thin]
+    _cse_range_targets(ctx, ExcelCompiler, g, ('adjacent', k), targets, solo, arrays, members, both_orders=True)
+    _sum_oracle(ctx, 'cse-range', ('adjacent', k), g, sums, solo,
+                dict(wrapper='in-memory', arrays=arrays))
+
+
 def _stream_cse_overlap(ctx):
     from pycel import ExcelCompiler
-    rng = ctx.rng
-    t = wbgen.SHEET
     for k in range(ctx.n(14, 140)):
-        g = _gen_cse_overlap(rng)
-        arrays, members = _cse_arrays(g)
-        solo = _solo(ctx, ExcelCompiler, 'cse-range', g, g.cells())
-        if solo is None:
-            continue
-        maxr, maxc = g.used(t)
-        rects = [(r1, c1, r2, c2) for r1 in range(1, 7) for r2 in range(r1, 7)
-                 for c1 in range(1, 7) for c2 in range(c1, 7)
-                 if (r2, c2) != (r1, c1) and any(r1 <= r <= r2 and c1 <= c <= c2 for (r, c) in members)]
-        inside = [x for x in rects if (x[0], x[1]) in members]       # top-left cell belongs to an array
-        outside = [x for x in rects if (x[0], x[1]) not in members]
-        nin = ctx.n(16, 60)
-        chosen = rng.sample(inside, min(nin, len(inside))) + rng.sample(outside, min(nin, len(outside)))
-        targets = [_range_target(t, *x) for x in chosen]
-        for (_, r1, c1, r2, c2, _) in arrays:
-            targets.append(_col_target(g, t, c1))
-            targets.append(_row_target(g, t, r1))
-        _cse_range_targets(ctx, ExcelCompiler, g, k, targets, solo, arrays, members)
+        _cse_overlap_case(ctx, ExcelCompiler, k)
     # adjacent blocks with identical / prefix-equal texts: every thin range anchored in the first
     # block and running into the neighbour(s), before and after its cells; SUM over such a range
     for k in range(ctx.n(12, 120)):
-        g, thin, sums = _gen_cse_adjacent(rng)
-        arrays, members = _cse_arrays(g)
-        solo = _solo(ctx, ExcelCompiler, 'cse-range', g, g.cells())
-        if solo is None:
-            continue
-        targets = [_range_target(t, *x) for x in thin]
-        _cse_range_targets(ctx, ExcelCompiler, g, ('adjacent', k), targets, solo, arrays, members, both_orders=True)
-        _sum_oracle(ctx, 'cse-range', ('adjacent', k), g, sums, solo,
-                    dict(wrapper='in-memory', arrays=arrays))
+        _cse_adjacent_case(ctx, ExcelCompiler, k)
 
 
 def _sum_oracle(ctx, stream, key, grid, sums, solo, extra=None):
@@ -817,7 +919,7 @@ def _sum_oracle(ctx, stream, key, grid, sums, solo, extra=None):
         gotn = got[1] if isinstance(got, tuple) and got[:1] == ('float',) else got
         if isinstance(gotn, bool) or not isinstance(gotn, (int, type(want))) or gotn != want:
             case = dict(call=stream, args=[_ra(cell[0], r1, c1, r2, c2)], order=[_a(*cell)], error='sum',
-                        workbook=grid.desc())
+                        workbook=grid.desc(), **grid.extra)
             case.update(extra or {})
             ctx.violation(case, f"{_a(*cell)} = SUM({_ra(cell[0], r1, c1, r2, c2)}) is not the sum of the values "
                                 f"of the cells of that range", impl=got, expected=want)
@@ -1049,3 +1151,86 @@ def _stream_unbounded_history(ctx):
                                   f"compile of the workbook with the values written",
                                   impl={_a(*c): got[c] for c in bad}, expected={_a(*c): want[c] for c in bad})
                     break
+
+
+# ------------------------------------------------------------------------- T8: merged areas
+def _gen_merged(rng):
+    """Block A1:D4 of numbers / text / blanks / formulas with one or two MERGED areas (1x2, 2x1, 2x2, 1x3, 3x1, 2x3,
+    3x2: only the top-left cell of an area holds content, the cells it covers are blank cells of their own kind in
+    openpyxl - MergedCell); formulas in column F below the block read covered cells directly (=D1+C1, =D1&"x",
+    =ISBLANK(D1)), through bounded ranges (=SUM(C1:D1), =COUNT(A1:D4)) and through unbounded ones (=SUM(1:1),
+    =COUNT(D:D)).  Returns (grid, covered cells, merged rectangles)."""
+    g = Grid()
+    t = wbgen.SHEET
+    s = g.sheet(t)
+    taken, covered, rects = set(), [], []
+    for _ in range(rng.choice([1, 2, 2])):
+        h, w = rng.choice([(1, 2), (2, 1), (2, 2), (1, 3), (3, 1), (2, 3), (3, 2), (1, 2), (2, 1)])
+        spots = [(r, c) for r in range(1, 6 - h) for c in range(1, 6 - w)
+                 if not ({(rr, cc) for rr in range(r, r + h) for cc in range(c, c + w)} & taken)]
+        if not spots:
+            continue
+        r1, c1 = rng.choice(spots)
+        area = [(rr, cc) for rr in range(r1, r1 + h) for cc in range(c1, c1 + w)]
+        taken |= set(area)
+        covered += [(t,) + x for x in area[1:]]
+        rects.append((r1, c1, r1 + h - 1, c1 + w - 1))
+        s['merges'].append(rects[-1])
+    cov = {x[1:] for x in covered}
+    for r in range(1, 5):
+        for c in range(1, 5):
+            if (r, c) in cov:
+                continue
+            p = rng.random()
+            top = any((r, c) == (x[0], x[1]) for x in rects)
+            if p < 0.55 or top and p < 0.8:
+                s['cells'][(r, c)] = rng.choice([1, 2, 3, 5, 7, -4, 10, 'txt', 12])
+            elif p < 0.75 and (r, c) != (1, 1):
+                prev = [(rr, cc) for rr in range(1, 5) for cc in range(1, 5) if (rr, cc) < (r, c)]
+                pr, pc = rng.choice(prev)              # an earlier cell of the block: a covered one now and then
+                if cov and rng.random() < 0.4:
+                    earlier = sorted(x for x in cov if x < (r, c))
+                    if earlier:
+                        pr, pc = rng.choice(earlier)
+                s['cells'][(r, c)] = rng.choice([f'={_col(pc)}{pr}+1', f'={_col(pc)}{pr}', f'={_col(pc)}{pr}&"m"',
+                                                 f'=SUM(A1:{_col(pc)}{pr})'])
+    cr, cc = rng.choice(sorted(cov))
+    forms = []
+    for (r, c) in rng.sample(sorted(cov), min(len(cov), 2)):
+        a = f'{_col(c)}{r}'
+        left = f'{_col(c - 1)}{r}' if c > 1 else f'{_col(c)}{r - 1}'
+        forms += [f'={a}+{left}', f'={a}', f'={a}&"x"', f'=ISBLANK({a})', f'=SUM({left}:{a})', f'=IF({a}="",1,2)',
+                  f'=SUM({r}:{r})', f'=COUNT({_col(c)}:{_col(c)})', f'=MAX(A{r}:D{r})', f'=INDEX(A1:D4,{r},{c})']
+    forms += ['=COUNT(A1:D4)', '=SUM(A1:D4)']
+    for i, text in enumerate(rng.sample(forms, rng.choice([2, 3, 3]))):
+        s['cells'][(6 + i, 6)] = text
+    return g, covered, rects
+
+
+def _stream_merged(ctx):
+    """merged areas: the covered cells read on their own, by formulas, through every kind of enclosing range, address
+    sequences and the sheet-less form, every target first (an exception is an observation too: it is reported)"""
+    from pycel import ExcelCompiler
+    rng = ctx.rng
+    t = wbgen.SHEET
+    for k in range(ctx.n(24, 200)):
+        g, covered, rects = _gen_merged(rng)
+        g.extra = dict(merged=[_ra(t, *x) for x in rects])
+        block = [(t, r, c) for r in range(1, 5) for c in range(1, 5)]
+        formulas = [c for c in g.cells() if c[2] == 6]
+        cells = block + formulas
+        # the covered cells, the formulas and a few other cells of the block as single targets
+        others = [c for c in block if c not in covered]
+        singles = [_cell_target(c) for c in covered + formulas + rng.sample(others, 3)]
+        ranges = [_range_target(t, *x) for x in rects]                               # the merged areas themselves
+        ranges.append(_range_target(t, 1, 1, 4, 4))                                  # the whole block
+        for (_, r, c) in rng.sample(covered, min(len(covered), 2)):
+            ranges.append(_range_target(t, r, 1, r, 4))                              # its row / column of the block
+            ranges.append(_range_target(t, 1, c, 4, c))
+            ranges.append(_row_target(g, t, r))
+            ranges.append(_col_target(g, t, c))
+            ranges.append(dict(addr=f'{_col(c)}{r}', sheet=t, rect=(r, c, r, c)))    # sheet-less
+        mixed = covered + rng.sample(others, 2)
+        rng.shuffle(mixed)
+        ranges.append(_seq_target(rng.choice(['list', 'tuple', 'generator']), mixed))
+        _run_orders(ctx, ExcelCompiler, 'merged-order', k, g, singles, ranges, ctx.n(6, 20), cells=cells)
